@@ -67,12 +67,13 @@ theorem putValue_obj_refines (σ : FnM.St) (j : Nat) (outer : Option Nat) (o : N
     absR (FnM.rtPutValue (FnM.newReference σ j x) v σ) = Fn.putIdent (absSt σ) (some j) x v :=
   putValue_obj_spec σ j outer o x v hs h0 hv hw hd hna
 
-/-- **PutValue, unresolvable reference** (§8.7.2 step 3.b): the global object gets the property -/
+/-- **PutValue, unresolvable reference** (§8.7.2 step 3.b): [[Put]] on the global object (no assumption that
+    the name is still absent there when the value arrives) -/
 theorem putValue_unresolvable_refines (σ : FnM.St) (x : String) (v : Fn.V) (hx : x ≠ "") (hv : Visible σ x)
     (hw : WritableWF σ) (hd : ProtoDesc σ) (g : FnM.Obj) (hg : σ.obj? FnM.gObj = some g)
-    (hna : ∀ ipn st, g.val ≠ .arguments ipn st) (hno : getPropertyP σ (σ.heap.length + 1) FnM.gObj x = none) :
+    (hna : ∀ ipn st, g.val ≠ .arguments ipn st) :
     absR (FnM.rtPutValue (.prop none x) v σ) = Fn.putIdent (absSt σ) none x v :=
-  putValue_unresolvable_spec σ x v hx hv hw hd g hg hna hno
+  putValue_unresolvable_spec σ x v hx hv hw hd g hg hna
 
 /-- **[[Put]] on a mapped index of an arguments object** (§10.6): the own property and the joined parameter
     are both written, in the stash the map points to -/
@@ -137,7 +138,8 @@ theorem hasInstance_walk_refines (σ : FnM.St) (p n x : Nat) :
     FnM.protoWalk σ n ((σ.obj? x).bind (·.proto)) p = Fn.hasInstance.walk p (absSt σ) n x :=
   protoWalk_spec σ p n x
 
-/-- **expr_refines_partial** — the evaluator simulation for the read-only identifier fragment (see FnRefine):
+/-- **expr_refines_partial** — the evaluator simulation for the read-only identifier fragment (see FnRefine;
+    literals, this, identifiers, + - < === !, typeof, (0, e), log(e), ?:):
     same value or same error, the host log extended by the same tokens, nothing else changed, unless otto runs
     out of fuel.  The full `fn_refines` (all expressions and statements, states related by an address-renaming
     relation, induction on fuel) is open. -/
@@ -346,5 +348,10 @@ example : (match evalV 6 (.log (.add (.var "x") (.var "y"))) σ1s with | .ok v s
 example : (match Fn.evalE 6 (.log (.add (.var "x") (.var "y"))) (ctxOf { lexical := 2, variable_ := 2, this := FnM.gObj }) (absSt σ1s) with
     | .ok v s => (v, s.trace) | _ => (.undef, [])) = (.num 3, ["n3"]) := by rfl
 example : (match evalV 6 (.typeof (.var "nowhere")) σ1s with | .ok v _ => v | _ => .undef) = .str "undefined" := by decide
+/-- the conditional operator (§11.12): the branch not taken is not evaluated (no ReferenceError for `nowhere`) -/
+example : ROSim 7 (.cond (.lt (.var "x") (.var "y")) (.log (.var "y")) (.var "nowhere")) { lexical := 2, variable_ := 2, this := FnM.gObj } σ1s :=
+  expr_refines_partial _ [] _ 7 _ rfl (by decide) σ1s roInv_σ1s rfl
+example : (match evalV 7 (.cond (.lt (.var "x") (.var "y")) (.log (.var "y")) (.var "nowhere")) σ1s with
+    | .ok v s => (v, s.trace) | _ => (.undef, [])) = (.num 2, ["n2"]) := by decide
 
 end OttoVerif.C01.FnThm
